@@ -2217,8 +2217,7 @@ impl Translator {
         match &*stmt.kind {
             StmtKind::Let(_, pat, expr) => {
                 self.translate_expr(expr, offset_table, mono, st);
-                let mut or_pat_decisions = HashSet::default();
-                self.handle_pat_binding(&pat.0, offset_table, st, mono, &mut or_pat_decisions);
+                self.translate_irrefutable_pat_binding(&pat.0, offset_table, st, mono);
             }
             StmtKind::Assign(expr1, assign_op, rvalue) => {
                 let rvalue_ty = self.get_ty(mono, rvalue.node()).unwrap();
@@ -2551,8 +2550,7 @@ impl Translator {
                 if self.get_ty(mono, pat.node()).unwrap() == SolvedType::Void {
                     self.emit(st, Instr::Pop);
                 }
-                let mut or_pat_decisions = HashSet::default();
-                self.handle_pat_binding(pat, offset_table, st, mono, &mut or_pat_decisions);
+                self.translate_irrefutable_pat_binding(pat, offset_table, st, mono);
                 st.loop_stack.push(EnclosingLoop {
                     start_label: start_label.clone(),
                     end_label: end_label_break.clone(),
@@ -2781,6 +2779,48 @@ impl Translator {
             | PatKind::Str(..)
             | PatKind::Wildcard => {}
         }
+    }
+
+    // Bind the pattern of a `let` or a `for`. A pattern with or-patterns first finds the
+    // combination of alternatives that matches the value, the way a match arm does, and
+    // binds through that combination (binding through the left alternatives without a
+    // test misread any value that only matches a right alternative).
+    fn translate_irrefutable_pat_binding(
+        &self,
+        pat: &Rc<Pat>,
+        locals: &OffsetTable,
+        st: &mut TranslatorState,
+        mono: &MonomorphEnv,
+    ) {
+        let mut combinations = self.or_pat_combinations(pat, mono);
+        if combinations.len() == 1 {
+            self.handle_pat_binding(pat, locals, st, mono, &mut combinations[0]);
+            return;
+        }
+        let ty = self.get_ty(mono, pat.node()).unwrap();
+        let end_label = make_label("endpat");
+        let labels: Vec<_> = combinations.iter().map(|_| make_label("patalt")).collect();
+        let last = combinations.len() - 1;
+        for (k, decisions) in combinations.iter().enumerate() {
+            if k == last {
+                // nothing else is left to try
+                self.emit(st, Instr::Jump(labels[k].clone()));
+            } else {
+                if ty != SolvedType::Void {
+                    self.emit(st, Instr::Duplicate);
+                }
+                self.translate_pat_comparison(&ty, pat, st, mono, &mut decisions.clone());
+                self.emit(st, Instr::JumpIf(labels[k].clone()));
+            }
+        }
+        for (k, decisions) in combinations.iter_mut().enumerate() {
+            self.emit(st, Line::Label(labels[k].clone()));
+            self.handle_pat_binding(pat, locals, st, mono, decisions);
+            if k != last {
+                self.emit(st, Instr::Jump(end_label.clone()));
+            }
+        }
+        self.emit(st, Line::Label(end_label));
     }
 
     fn handle_pat_binding(
